@@ -143,6 +143,18 @@ def summaries(fn, max_paths=2048, params_env=None):
                 ("expr", subst(s.value, env))], k, retk)
         if isinstance(s, ast.Pass):
             return run(rest, conds, env, effects, k, retk)
+        if isinstance(s, (ast.Assign, ast.AnnAssign, ast.Return)) and \
+                isinstance(getattr(s, "value", None), ast.IfExp):
+            # x = a if t else b  ==  if t: x = a  else: x = b
+            e = s.value
+            alts = []
+            for br in (e.body, e.orelse):
+                c2 = acopy(s)
+                c2.value = br
+                alts.append(c2)
+            iff = ast.copy_location(ast.If(e.test, [alts[0]], [alts[1]]), s)
+            ast.fix_missing_locations(iff)
+            return run([iff] + list(rest), conds, env, effects, k, retk)
         if isinstance(s, (ast.Assign, ast.AnnAssign)):
             if isinstance(s, ast.AnnAssign):
                 if s.value is None:
